@@ -1072,6 +1072,22 @@ impl Driver {
         if self.r.below(1000) < (if f == Focus::Ids { 40 } else { 8 }) {
             // a send that must be refused whatever the state: wrong protocol version, or a packet kind
             // this role may never send - carrying a packet id the application holds
+            // ... or a packet of this connection's own kind on an id that nobody acquired (refused as invalid, nothing to release)
+            if self.model.status == St::Cd && self.r.below(4) == 0 {
+                let free = (1u32..=12).find(|i| !self.model.in_use.contains(i)).unwrap_or(0);
+                if free != 0 {
+                    let p = match self.r.below(3) {
+                        0 if self.sc.as_client => Pkt::Subscribe { ver, id: free, props: vec![], entries: vec![(b"a/#".to_vec(), 1)] },
+                        1 => Pkt::Ack { ver, kind: AckKind::Pubrel, id: free, code: None, props: None },
+                        _ => {
+                            let q = 1 + self.r.below(2) as u8;
+                            self.our_publish(q, Some(free))
+                        }
+                    };
+                    self.send(p);
+                    return;
+                }
+            }
             if let Some(id) = self.app_id() {
                 let wrong_ver = if ver == Ver::V5 { Ver::V311 } else { Ver::V5 };
                 let v = if self.sc.role == Role::Server && self.r.bool() { ver } else { wrong_ver };
